@@ -100,6 +100,7 @@ func refRangeChoice(produces []string, media string) int {
 
 // H_C05: the written entity's media type is produced by the route and best for Accept.
 // part/nparts: this run covers the headers whose length is congruent to part modulo nparts
+// mode 3: skeleton "<type>;<name>=<value>,<type>" with a symbolic parameter name (1 or 2 bytes) and value (exactly capN bytes)
 // mode 0: <=2 ranges, <=1 parameter each; 1: <=2 ranges, <=2 parameters; 2: built-in names with a symbolic tail
 func H_C05(prodCfg, mode, capN, part, nparts int) {
 	vRegister(prodCfg == 3 || prodCfg == 4)
@@ -112,6 +113,12 @@ func H_C05(prodCfg, mode, capN, part, nparts int) {
 	var accept string
 	if mode == 2 {
 		accept = []string{MIME_XML, MIME_JSON, "*/*"}[nondetChoice("head", 3)] + nondetString("tail", capN)
+	} else if mode == 3 {
+		// skeleton: two ranges over registered types or */*, each with one parameter whose name and
+		// value are symbolic (capN bytes together); reaches parameter handling at a small cost
+		menu := []string{"a/j", "a/x", "*/*"}
+		maxParams = 1
+		accept = menu[nondetChoice("m0", 3)] + ";" + nondetFixed("pn0", 1+nondetChoice("pnlen", 2)) + "=" + nondetFixed("pv0", capN) + "," + menu[nondetChoice("m1", 3)]
 	} else {
 		accept = nondetString("accept", capN)
 	}
